@@ -439,7 +439,10 @@ def encodeDop : (fuel : Nat) → Dop → PVal → EncM Unit
     | some bs =>
       let s ← getS
       let actual := s.cursorByte - origPos
-      if actual < bs then
+      -- (fix c01-byte-size-structure-content-too-long) "Attempted to encode too large instance of structure": the decoder
+      -- rejects such a PDU
+      if actual > bs then odxraise .encode
+      else if actual < bs then
         -- pad the structure to BYTE-SIZE (relative to its own first byte); padding counts as "used"
         let endPos := origPos + bs
         let n := endPos - s.msg.length
